@@ -278,8 +278,9 @@ def check_wakeup_close_idempotent(times: int) -> bool:
         return (NS(close=lambda: log.add("r-close"), poll=lambda: False),
                 NS(close=lambda: log.add("w-close"), send_bytes=lambda b: log.add("send")))
 
+    import multiprocessing as _mp
     saved = pe.mp
-    pe.mp = NS(Pipe=pipe)
+    pe.mp = NS(Pipe=pipe, util=_mp.util)  # only the pipe is faked; the rest of multiprocessing is the real module
     try:
         w = pe._ThreadWakeup()
     finally:
@@ -292,15 +293,19 @@ def check_wakeup_close_idempotent(times: int) -> bool:
     return log.count("r-close") == 1 and log.count("w-close") == 1 and log.count("send") == 1
 
 
-def check_shutdown_call(wait: bool, kill: bool, started: bool) -> bool:
+def check_shutdown_call(wait: bool, kill: bool, started: bool, already: bool = False) -> bool:
     """
     post: _
     """
+    # `already`: an earlier shutdown(wait=False) flagged the executor; the manager thread is still running its
+    # pending work.  A later shutdown(wait=True[, kill_workers=True]) (what get_reusable_executor issues before it
+    # replaces the instance) must still record the request, wake the manager up and wait for it.
     # real ProcessPoolExecutor.shutdown on a fake executor: whatever `wait` is, the flag is set first and the
     # manager thread is woken (under the shutdown lock) so that it can notice; join only when waited
     log = Log()
     sl = FakeLock(log, "shutdown_lock")
     flags = FakeFlags(sl)
+    flags.shutdown = bool(already)
     joined = []
 
     class _Mgr:
@@ -645,3 +650,47 @@ def _run_loop(events, shut_at, pending_left):
     if stop is None:
         want.append(("dispatch", n))  # the loop goes on: one more dispatch, then the script ends
     return list(log) == want and ended == (stop is not None)
+
+
+def check_unused_executor_released(n: int, how: int) -> bool:
+    """
+    pre: 1 <= n <= 3 and 0 <= how <= 2
+    post: _
+    """
+    # C20: an executor that is created and released without ever running a task (shutdown(), context manager, plain
+    # drop) has no manager thread to close its wake-up pipe: the pipe goes away only if nothing else keeps the
+    # _ThreadWakeup object alive.  Real constructor, real _ThreadWakeup (real pipe), real shutdown; afterwards the
+    # object must be unreachable and both descriptors closed, for every one of n such lifecycles.
+    n, how = _conc(n, 3), _conc(how, 2)
+    return _untraced(lambda: _unused_released(n, how))
+
+
+def _unused_released(n, how):
+    import gc
+    import os
+    import weakref
+    from .fakes import FakeCtx
+    refs, fds = [], []
+    saved = (pe._SafeQueue, pe.SimpleQueue, pe._check_system_limits, pe._CURRENT_DEPTH, pe.MAX_DEPTH)
+    pe._SafeQueue = lambda **kw: NS(tag="CQ")
+    pe.SimpleQueue = lambda reducers=None, ctx=None: NS(tag="RQ")
+    pe._check_system_limits = lambda: None
+    pe._CURRENT_DEPTH, pe.MAX_DEPTH = 0, 0
+    try:
+        for _ in range(n):
+            ex = pe.ProcessPoolExecutor(max_workers=1, context=FakeCtx(Log(), accepts_env=True, mgmt_lock=None))
+            w = ex._executor_manager_thread_wakeup
+            refs.append(weakref.ref(w))
+            del w
+            if how == 0:
+                ex.shutdown()
+            elif how == 1:
+                with ex:
+                    pass
+            del ex
+        gc.collect()
+    finally:
+        pe._SafeQueue, pe.SimpleQueue, pe._check_system_limits, pe._CURRENT_DEPTH, pe.MAX_DEPTH = saved
+    # unreachable => its two Connection objects are collected, and a collected Connection closes its descriptor
+    # (descriptor numbers are not probed: an unrelated thread may re-use a number at any time)
+    return all(r() is None for r in refs)
